@@ -77,6 +77,29 @@ def walk_bound(res, prog):
                           'the frame loop exits only when get_caller_frame returns None or there is no stack memory: the number of frames is not tied to the stack size (CFI `.cfa: $rsp 1 +` advances one byte per frame without touching memory)')
 
 
+def limits_filter(res, prog):
+    """backing rule C03.limits: the proc-limits line vectors pass .filter(|m| m.len() >= 3) before they are indexed"""
+    c = prog.crate('minidump_processor')
+    fam = [f for f in c.fns if f.path.startswith("<process_state::LinuxProcLimits as std::convert::From<minidump::MinidumpLinuxProcLimits<'_>>>::from")]
+    res.rule('C03.limits', 0, floor=1, note='LinuxProcLimits::from filters out lines with fewer than 3 fields before indexing')
+    ok = False
+    for f in fam:
+        if f.kind != 'closure':
+            continue
+        for (b, i, tree) in ret_assigns(f):
+            tx = f.expand(tree)
+            if tx[0] == 'bin' and tx[1] in ('Ge', 'Gt') and is_call(tx[2], 'len') and tx[3][0] == 'int' and tx[3][1] >= (3 if tx[1] == 'Ge' else 2):
+                # and this closure is handed to Iterator::filter by the parent
+                for g in fam:
+                    for bb, t in g.calls():
+                        if g.callee_decl(t).endswith('Iterator::filter') and f.path in show(g.operand_tree(t['args'][1])):
+                            ok = True
+    if fam:
+        res.rule('C03.limits', 1)
+    if not ok:
+        res.violation('C03.limits', 'C03.limits', fam[0] if fam else None, None, 'no `.filter(|m| m.len() >= 3)` stage found in LinuxProcLimits::from: the table entries for m[0..3] are void')
+
+
 def run(tier, t0):
     res = harness.Result(PID)
     prog = program()
@@ -86,6 +109,7 @@ def run(tier, t0):
     totality.run_allocs(res, prog, fns, 'C03.4', floor=5)
     walk_bound(res, prog)
     optional_streams(res, prog)
+    limits_filter(res, prog)
     res.extra['derive_generated_functions_skipped'] = derived
     res.assumptions += [
         'usize is 64 bits wide (interval rule D2)',
